@@ -108,6 +108,9 @@ func recacheAggregatorContext(ctx sdk.Context, agc *aggregator.AggregatorContext
 		p = recentParamsMap[prev]
 		agc.SetParams(p)
 		setCommonParams(p)
+		// nothing to replay (the validator set changed in the previous block and all rounds were sealed),
+		// but the rounds of the current block still have to be prepared like the live node did
+		agc.PrepareRoundEndBlock(uint64(to - 1))
 	} else {
 		prev := int64(0)
 		for ; from < to; from++ {
